@@ -542,8 +542,7 @@ Print Assumptions C05_non_ascii_identifier_refuted.
    the syntactic file lay_file builds, i.e. order / Simplify / json_name / type names are those of the token model.
    Tie (bytes stream): every repository proto, compiled file and hand-built descriptor of a run is rebuilt without
    source info, printed by the REAL PrintFile, and render_bytes evaluated in Coq must give exactly those bytes.
-   Sub-class of the theorem: [bytes_modelled_b gen imp D] = unlocated_b D, the generated comment is one line, the
-   printed tokens contain no comment pseudo token (computed: print_file_tokens = print_file_tokens_nc), and
+   Sub-class of the theorem: [bytes_modelled_b gen imp D] = unlocated_b D, the generated comment is one line, and
    the computable layout test is_layout (tokens D) (render_bytes D) — evaluated on every case of the bytes stream
    (all inside). NOT proved: unlocated_b D /\ wf_dfile D -> is_layout ... (the test is a hypothesis, not a lemma);
    located descriptors (the blank-line rule on StartLine / EndLine, multi-line option sources, comments) are not
@@ -551,7 +550,7 @@ Print Assumptions C05_non_ascii_identifier_refuted.
    descriptor D0 is the same text; D0 = canon_file D carries source lines, so the REAL second print is not this
    function's (observed on the real code: it has more blank lines; counted by the bytes stream). *)
 From J5V.model Require Import ProtoPrintBytes.
-From J5V.proofs Require Import ProtoPrintBytesProofs.
+From J5V.proofs Require Import ProtoPrintBytesEraseProofs ProtoPrintBytesProofs.
 
 Definition C05_bytes_statement_subclass : Prop :=
   forall (gen : list N) (imp : xsymtab) (D : dfile), wf_dfile imp D -> bytes_modelled_b gen imp D = true ->
@@ -588,3 +587,10 @@ Theorem C05_scan_render_bytes_tokens : forall gen imp D, bytes_modelled_b gen im
   scan_text (render_bytes gen imp D) = Some (print_file_tokens (to_symtab (dfile_symtab imp D)) D).
 Proof. exact scan_render_bytes_tokens. Qed.
 Print Assumptions C05_scan_render_bytes_tokens.
+
+(* a descriptor without source info has no comments (all descriptors, any nesting): the laid-out file is its own
+   comment-free form, the printer model writes no comment pseudo token *)
+Theorem C05_unlocated_no_comments : forall st D, unlocated_b D = true ->
+  erase_sfile (lay_file st D) = lay_file st D /\ print_file_tokens_nc st D = print_file_tokens st D.
+Proof. exact unlocated_no_comments. Qed.
+Print Assumptions C05_unlocated_no_comments.
